@@ -146,10 +146,7 @@ func runWriter(db sopx.DB, clock *conc.Clock, id string, ops []txn.Op, delay tim
 func Run(r *report.Run) int {
 	rounds := r.Pick(160, 4000)
 	lines, died := par.Run(r, "c04-worker", 8, rounds, 1500, nil)
-	for _, d := range died {
-		r.Inconclusive("worker-died")
-		r.Set("worker_death", d)
-	}
+	conc.ReportDeaths(r, "C04", died)
 	_ = rand.Int
 	for _, l := range lines {
 		var res RoundRes
